@@ -14,7 +14,7 @@ from sa.rules import common
 from sa.rules import shared
 
 EXPLANATION = (
-    'The accepted set is computed for the complete 24 288-row lattice by path '
+    'The accepted set is computed for the complete 25 024-row lattice by path '
     'enumeration of the acceptance functions found through the registry '
     '(OpQuantizationConfig.__post_init__, AlgorithmManagerApi.'
     'check_op_quantization_config, the algorithm check function, the unrolled '
@@ -124,7 +124,10 @@ def r1_lattice(ctx):
   # every field of the ACTIVATION config is varied too (granularity, dtype) - against a reduced set of weight configs
   acts_x = common.tensor_cfgs(ctx, [8, 16], [True, False], ['CHANNELWISE'], ['INT']) + common.tensor_cfgs(ctx, [8], [True, False], ['TENSORWISE'], ['FLOAT'])
   weights_x = common.tensor_cfgs(ctx, [8], [True], ['TENSORWISE', 'CHANNELWISE'], ['INT'])
-  grid = list(itertools.product(acts, weights, CP, [False, True])) + list(itertools.product(acts_x, weights_x, CP, [False, True]))
+  # ... and the third granularity with a block size: the policy declares no BLOCKWISE entry, so every such row must be refused
+  weights_b = common.tensor_cfgs(ctx, [4, 8], [True], ['BLOCKWISE'], ['INT'], block_sizes=(32,))
+  grid = list(itertools.product(acts, weights, CP, [False, True])) + list(itertools.product(acts_x, weights_x, CP, [False, True])) \
+      + list(itertools.product([None, acts[2]], weights_b, CP, [False, True]))
   for a, w, cp, ed in grid:
     cfg = tables.construct(ctx, common.OPCFG, activation_tensor_config=a, weight_tensor_config=w, compute_precision=cp, explicit_dequantize=ed)
     for alg in (MM, FCA):
@@ -182,8 +185,8 @@ def r1_lattice(ctx):
   ctx.extra['lattice_rows'] = rows
   ctx.extra['accepted_rows'] = accepted_n
   ctx.extra['refused_at_construction'] = refused_ctor
-  if rows != 24288:
-    raise index.AnalysisError(f'{R}: lattice has {rows} rows, expected 24288')
+  if rows != 25024:
+    raise index.AnalysisError(f'{R}: lattice has {rows} rows, expected 25024')
   ctx.sample(R, {'rows': rows, 'accepted': accepted_n, 'refused_by_post_init': refused_ctor,
                  'example_accepted': sorted(str(k) for k in accepted_by_op.get('FULLY_CONNECTED', []))[:2]})
   # every declared cell inside the lattice is accepted (no declared config silently unreachable)
